@@ -53,6 +53,10 @@ func placementPanics(ns string, pn, replica int, rows [][]string, nodes map[stri
 	return nil
 }
 
+func isKnownPlacementPanic(r interface{}, stack string) bool {
+	return strings.Contains(fmt.Sprint(r), "interface {} is nil, not pdnode_coord.loadItem") && strings.Contains(stack, "fillPartitionMapV2")
+}
+
 // Regression probe for the known finding: minimal direct inputs, shaped exactly like what
 // the coordinator passes (previous rows = the partitions' current remaining replicas, which
 // hold replica+1 nodes between "replacement added" and "old replica dropped").
@@ -75,8 +79,43 @@ func TestKnownPlacementPanic(t *testing.T) {
 		if p := placementPanics("c18ns", 2, 3, [][]string{{id(0), id(3), id(1)}, {id(0), id(3), id(1), id(2)}}, nodes(0, 1, 2), pdnode_coord.BalanceV2Str); p != nil {
 			return true, fmt.Sprintf("v2 layout for replica=3, live nodes {A,B,C} (X being decommissioned), rows [[A,X,B],[A,X,B,C]] panics: %v", p)
 		}
+		// (3) through the coordinator: replica 2, two partitions on [n2 n1], cluster {n0 n1 n2}; n2 loses its
+		// register session but keeps answering. The second check pass gives one partition its replacement
+		// (row [n2 n1 n0]) and then places the other one.
+		if p := probeCoordinatorScenario(); p != nil {
+			return true, fmt.Sprintf("replica=2, partitions p0=p1=[n2 n1], nodes {n0,n1,n2}, n2 loses its register session: the second doCheckNamespaces pass panics after migrating the first partition: %v", p)
+		}
 		return false, ""
 	})
+}
+
+func probeCoordinatorScenario() (p interface{}) {
+	pl := getPool()
+	ns := "c18ns"
+	w := &world{ns: ns, nodes: make([]nodeState, poolSize), ans: map[[2]int]answer{}}
+	reg := newFakeRegister(ns, cluster.NamespaceMetaInfo{PartitionNum: 2, Replica: 2, MinGID: 1000})
+	w.reg = reg
+	for i := 0; i < 3; i++ {
+		w.nodes[i] = nodeState{inCluster: true, registered: true, httpUp: true}
+	}
+	for pid := 0; pid < 2; pid++ {
+		reg.seed(pid, cluster.PartitionReplicaInfo{RaftNodes: []string{pl[2].info.ID, pl[1].info.ID},
+			RaftIDs: map[string]uint64{pl[2].info.ID: 1, pl[1].info.ID: 2}, Removings: map[string]cluster.RemovingInfo{}, MaxRaftID: 2})
+	}
+	curWorld.Store(w)
+	defer curWorld.Store((*world)(nil))
+	coord := pdnode_coord.VerifNewPDCoordinator(reg, pdnode_coord.BalanceV2Str, true)
+	coord.VerifSetDataNodes([]cluster.NodeInfo{pl[0].info, pl[1].info, pl[2].info})
+	waiting := map[string]map[int]time.Time{}
+	mon := make(chan struct{})
+	w.mu.Lock()
+	w.nodes[2].registered = false
+	w.mu.Unlock()
+	coord.VerifSetDataNodes([]cluster.NodeInfo{pl[0].info, pl[1].info})
+	defer func() { p = recover() }()
+	coord.VerifDoCheckNamespaces(mon, nil, waiting, true)
+	coord.VerifDoCheckNamespaces(mon, nil, waiting, true)
+	return nil
 }
 
 func TestMain(m *testing.M) {
@@ -635,6 +674,7 @@ func TestMigrationSequences(t *testing.T) {
 			desc := act
 			s.operator = false
 			mark := len(s.trace)
+			ended := false
 			if placementActions[act] && placementTrigger() {
 				recSeq.Count("excluded_by_known_finding", 1)
 				s.labels["action_skipped_known_finding"] = true
@@ -649,6 +689,15 @@ func TestMigrationSequences(t *testing.T) {
 						}
 						buf := make([]byte, 1<<14)
 						buf = buf[:runtime.Stack(buf, false)]
+						if known.Active(findingPlacementPanic) && isKnownPlacementPanic(r, string(buf)) {
+							// the trigger arose inside the action (e.g. the pass gave partition 0 its replacement and
+							// then placed partition 1): production would have died here, the sequence ends
+							recSeq.Count("excluded_by_known_finding", 1)
+							s.labels["sequence_ended_by_known_finding"] = true
+							desc += " (pd would die here: known finding " + findingPlacementPanic + "; sequence ends)"
+							ended = true
+							return
+						}
 						s.fail("PANIC in the coordinator during %q: %v\n%s", desc, r, trimStack(string(buf)))
 					}
 				}()
@@ -835,6 +884,9 @@ func TestMigrationSequences(t *testing.T) {
 			s.trace = append(s.trace[:mark:mark], append([]string{fmt.Sprintf("step %d: %s", step, desc)}, s.trace[mark:]...)...)
 			if s.violation != "" {
 				t.Fatalf("%s\n--- sequence (replica=%d partitions=%d nodes=%d balance=%s) ---\n%s", s.violation, R, pn, nStart, ver, strings.Join(tail(s.trace, 90), "\n"))
+			}
+			if ended {
+				break
 			}
 		}
 		if s.writes >= 2 {
